@@ -451,13 +451,14 @@ class Stream(object):
 
 
 def is_no_body(request, response, no_content_codes=DEFAULT_NO_CONTENT_CODES):
-    '''Return whether a content body is not expected.'''
-    if 'Content-Length' not in response.fields \
-            and 'Transfer-Encoding' not in response.fields \
-            and (
-                response.status_code in no_content_codes
-                or request.method.upper() == 'HEAD'
-            ):
+    '''Return whether a content body is not expected.
+
+    A response to a HEAD request and any 1xx, 204 or 304 response ends at
+    the header block whatever header fields are present (RFC 7230
+    section 3.3.3).
+    '''
+    if response.status_code in no_content_codes \
+            or request.method.upper() == 'HEAD':
         return True
     else:
         return False
